@@ -1,6 +1,7 @@
 from __future__ import annotations
 
 import logging
+import os
 from collections import defaultdict
 from typing import TYPE_CHECKING
 
@@ -115,6 +116,8 @@ def _get_mypy_build(files: list[str]) -> mypy_build.BuildResult:
     opt.fine_grained_incremental = True
     # Export inferred types for all expressions
     opt.export_types = True
+    # The build result is never read from mypy's cache, so no cache directory has to be created in the working directory
+    opt.cache_dir = os.devnull
 
     return mypy_build.build(mypyfiles, options=opt)
 
